@@ -132,3 +132,265 @@ pub fn res_expr(r: Option<Result<E, falcon::Error>>) -> String {
         Some(Err(e)) => crate::canon::err_str(&e).to_string(),
     }
 }
+
+// ------------------------------------------------------------------------------------------------
+// operations, blocks, functions, programs (grammar: lean/FalconModel/FilIL.lean)
+
+use falcon::il::{Block, ControlFlowGraph, Function, Instruction, Intrinsic, Operation, PhiNode, Program};
+
+fn clean(s: &str) -> String {
+    let t: String = s.chars().map(|c| if c.is_whitespace() || c == '(' || c == ')' { '_' } else { c }).collect();
+    if t.is_empty() { "_".to_string() } else { t }
+}
+
+fn opt_exprs_str(x: Option<&[E]>) -> String {
+    match x {
+        None => "-".to_string(),
+        Some(es) => format!("({})", es.iter().map(expr_str).collect::<Vec<_>>().join(" ")),
+    }
+}
+
+pub fn op_str(op: &Operation) -> String {
+    match op {
+        Operation::Assign { dst, src } => format!("(assign {} {})", scalar_str(dst), expr_str(src)),
+        Operation::Store { index, src } => format!("(store {} {})", expr_str(index), expr_str(src)),
+        Operation::Load { dst, index } => format!("(load {} {})", scalar_str(dst), expr_str(index)),
+        Operation::Branch { target } => format!("(branch {})", expr_str(target)),
+        Operation::Intrinsic { intrinsic } => format!(
+            "(intrinsic {} {} {})",
+            clean(intrinsic.mnemonic()),
+            opt_exprs_str(intrinsic.written_expressions()),
+            opt_exprs_str(intrinsic.read_expressions())
+        ),
+        Operation::Nop { .. } => "(nop)".to_string(),
+    }
+}
+
+pub fn ins_str(i: &Instruction) -> String {
+    let a = match i.address() {
+        None => "-".to_string(),
+        Some(a) => format!("0x{:x}", a),
+    };
+    format!("(ins {} {} {})", i.index(), a, op_str(i.operation()))
+}
+
+/// `preds`: the block indices to look up in the phi node (its map is not iterable from outside)
+pub fn phi_str(p: &PhiNode, preds: &[usize]) -> String {
+    let mut parts = vec!["(phi".to_string(), scalar_str(p.out())];
+    parts.push(match p.entry_scalar() {
+        None => "-".to_string(),
+        Some(s) => scalar_str(s),
+    });
+    for b in preds {
+        if let Some(s) = p.incoming_scalar(*b) {
+            parts.push(format!("({} {})", b, scalar_str(s)));
+        }
+    }
+    parts.join(" ") + ")"
+}
+
+/// `next_instr`: Block::next_instruction_index is private; callers that track it pass it, others pass
+/// `None` and get `max index + 1` (what the API produces when nothing was removed).
+pub fn blk_str(b: &Block, all_blocks: &[usize], next_instr: Option<usize>) -> String {
+    let ni = next_instr.unwrap_or_else(|| b.instructions().iter().map(|i| i.index() + 1).max().unwrap_or(0));
+    let mut parts = vec!["(blk".to_string(), b.index().to_string(), ni.to_string()];
+    for p in b.phi_nodes() {
+        parts.push(phi_str(p, all_blocks));
+    }
+    for i in b.instructions() {
+        parts.push(ins_str(i));
+    }
+    parts.join(" ") + ")"
+}
+
+pub fn edge_str(e: &il::Edge) -> String {
+    let c = match e.condition() {
+        None => "-".to_string(),
+        Some(c) => expr_str(c),
+    };
+    format!("(edge {} {} {})", e.head(), e.tail(), c)
+}
+
+/// private counters (`next_index`, `next_temp_index`) are printed as `max block index + 1` and 0
+pub fn function_str(f: &Function) -> String {
+    let cfg = f.control_flow_graph();
+    let idxs: Vec<usize> = cfg.blocks().iter().map(|b| b.index()).collect();
+    let o = |x: Option<usize>| x.map(|v| v.to_string()).unwrap_or_else(|| "-".to_string());
+    let mut parts = vec![
+        "(fn".to_string(),
+        format!("0x{:x}", f.address()),
+        o(f.index()),
+        o(cfg.entry()),
+        o(cfg.exit()),
+        idxs.iter().max().map(|m| m + 1).unwrap_or(0).to_string(),
+        "0".to_string(),
+    ];
+    for b in cfg.blocks() {
+        parts.push(blk_str(b, &idxs, None));
+    }
+    for e in cfg.edges() {
+        parts.push(edge_str(e));
+    }
+    parts.join(" ") + ")"
+}
+
+pub fn program_str(p: &Program) -> String {
+    let mut parts = vec!["(prog".to_string()];
+    for f in p.functions() {
+        parts.push(function_str(f));
+    }
+    parts.join(" ") + ")"
+}
+
+fn read_scalar_sx(x: &Sx) -> Option<il::Scalar> {
+    let l = x.list()?;
+    if l.first()?.atom()? != "s" {
+        return None;
+    }
+    read_scalar(&l[1..])
+}
+
+fn read_opt_exprs(x: &Sx) -> Option<Option<Vec<E>>> {
+    match x {
+        Sx::Atom(a) if a == "-" => Some(None),
+        Sx::List(v) => Some(Some(v.iter().map(read_expr).collect::<Option<Vec<_>>>()?)),
+        _ => None,
+    }
+}
+
+pub fn read_op(x: &Sx) -> Option<Operation> {
+    let l = x.list()?;
+    match (l.first()?.atom()?, &l[1..]) {
+        ("assign", [d, e]) => Some(Operation::assign(read_scalar_sx(d)?, read_expr(e)?)),
+        ("store", [i, s]) => Some(Operation::store(read_expr(i)?, read_expr(s)?)),
+        ("load", [d, i]) => Some(Operation::load(read_scalar_sx(d)?, read_expr(i)?)),
+        ("branch", [t]) => Some(Operation::branch(read_expr(t)?)),
+        ("intrinsic", [m, w, r]) => Some(Operation::intrinsic(Intrinsic::new(
+            m.atom()?,
+            m.atom()?,
+            Vec::new(),
+            read_opt_exprs(w)?,
+            read_opt_exprs(r)?,
+            Vec::new(),
+        ))),
+        ("nop", []) => Some(Operation::nop()),
+        _ => None,
+    }
+}
+
+fn opt_u(x: &Sx) -> Option<Option<u64>> {
+    match x.atom()? {
+        "-" => Some(None),
+        _ => Some(Some(x.u64()?)),
+    }
+}
+
+/// Rebuilds a function from FIL through falcon's public API only:
+/// blocks `0..nextIndex` are created with `new_block`; indices absent from the text are merged away
+/// (chained behind the first present block and removed by `merge()`, which is how such gaps arise in
+/// falcon itself); `next_instruction_index` is reproduced by that many `nop()` calls before the
+/// instruction list is replaced; instructions are pushed raw (arbitrary indices and addresses).
+pub fn read_function(x: &Sx) -> Option<Function> {
+    let l = x.list()?;
+    if l.first()?.atom()? != "fn" || l.len() < 7 {
+        return None;
+    }
+    let addr = l[1].u64()?;
+    let index = opt_u(&l[2])?;
+    let entry = opt_u(&l[3])?;
+    let exit = opt_u(&l[4])?;
+    let next_index = l[5].usize()?;
+    let next_temp = l[6].u64()?;
+    let mut blks: Vec<&[Sx]> = Vec::new();
+    let mut edges: Vec<&[Sx]> = Vec::new();
+    for it in &l[7..] {
+        let il_ = it.list()?;
+        match il_.first()?.atom()? {
+            "blk" => blks.push(il_),
+            "edge" => edges.push(il_),
+            _ => return None,
+        }
+    }
+    let present: Vec<usize> = blks.iter().map(|b| b[1].usize()).collect::<Option<Vec<_>>>()?;
+    let max = present.iter().cloned().max().map(|m| m + 1).unwrap_or(0).max(next_index);
+    let mut cfg = ControlFlowGraph::new();
+    for _ in 0..max {
+        cfg.new_block().ok()?;
+    }
+    for _ in 0..next_temp {
+        cfg.temp(1);
+    }
+    let missing: Vec<usize> = (0..max).filter(|i| !present.contains(i)).collect();
+    if !missing.is_empty() {
+        let first = *present.first()?;
+        let mut prev = first;
+        for m in &missing {
+            cfg.unconditional_edge(prev, *m).ok()?;
+            prev = *m;
+        }
+        cfg.merge().ok()?;
+    }
+    for b in &blks {
+        let bi = b[1].usize()?;
+        let ni = b[2].usize()?;
+        let all: Vec<usize> = present.clone();
+        let block = cfg.block_mut(bi).ok()?;
+        for _ in 0..ni {
+            block.nop();
+        }
+        block.instructions_mut().clear();
+        for item in &b[3..] {
+            let il_ = item.list()?;
+            match il_.first()?.atom()? {
+                "ins" => {
+                    let mut ins = Instruction::new(il_[1].usize()?, read_op(&il_[3])?);
+                    ins.set_address(opt_u(&il_[2])?);
+                    block.instructions_mut().push(ins);
+                }
+                "phi" => {
+                    let mut p = PhiNode::new(read_scalar_sx(&il_[1])?);
+                    if il_[2].atom() != Some("-") {
+                        p.set_entry_scalar(read_scalar_sx(&il_[2])?);
+                    }
+                    for inc in &il_[3..] {
+                        let pr = inc.list()?;
+                        p.add_incoming(read_scalar_sx(&pr[1])?, pr[0].usize()?);
+                    }
+                    block.add_phi_node(p);
+                }
+                _ => return None,
+            }
+        }
+        let _ = all;
+    }
+    for e in &edges {
+        let (h, t) = (e[1].usize()?, e[2].usize()?);
+        if e[3].atom() == Some("-") {
+            cfg.unconditional_edge(h, t).ok()?;
+        } else {
+            cfg.conditional_edge(h, t, read_expr(&e[3])?).ok()?;
+        }
+    }
+    if let Some(en) = entry {
+        cfg.set_entry(en as usize).ok()?;
+    }
+    if let Some(ex) = exit {
+        cfg.set_exit(ex as usize).ok()?;
+    }
+    let mut f = Function::new(addr, cfg);
+    f.set_index(index.map(|i| i as usize));
+    Some(f)
+}
+
+/// functions are added in order; their indices in the text must be 0,1,2,… (what `add_function` gives)
+pub fn read_program(x: &Sx) -> Option<Program> {
+    let l = x.list()?;
+    if l.first()?.atom()? != "prog" {
+        return None;
+    }
+    let mut p = Program::new();
+    for f in &l[1..] {
+        p.add_function(read_function(f)?);
+    }
+    Some(p)
+}
